@@ -348,8 +348,9 @@ def check_keys(ctx, it):
         info[k] = ns
     cw4c = {}
     for name in ("TOTAL_KEY", "MEMBERS_KEY", "MEMBERS_CHECKPOINTS", "MEMBERS_CHANGELOG", "TOTAL_KEY_CHECKPOINTS", "TOTAL_KEY_CHANGELOG"):
-        b = ctx.facts.bodies.get("cw4::query::" + name)
-        v = eng.eval_const(_dp(ctx, "cw4::query::" + name), None) if b is not None else None
+        # the constant by name, in whatever module of the cw4 package it is declared
+        cs = [d_["dp"] for d_ in ctx.facts.crates["cw4"]["bodies"] if d_["kind"] == "const" and d_["path"].split("::")[-1] == name]
+        v = eng.eval_const(cs[0], None) if len(cs) == 1 else None
         cw4c[name] = v[1] if v and v[0] == "str" else None
     ctx.ob("R09.5", "anchor:cw4 key constants", all(cw4c.values()), trivial=True, detail="cw4 key constants not found: %s" % cw4c)
     for k, want in (("g_total", "TOTAL_KEY"), ("s_total", "TOTAL_KEY"), ("g_members", "MEMBERS_KEY"), ("s_members", "MEMBERS_KEY")):
@@ -381,6 +382,10 @@ def check_keys(ctx, it):
             for x in walk(p_.ret):
                 if x[0] == "call" and x[1] == kind:
                     src = x[2][0]
+                    if src[0] == "const":           # the remote accessor declared as a const: read its initialiser
+                        nsx = eng.namespace_of(src)
+                        if nsx and nsx[0]:
+                            src = ("call", nsx[1], (("str", nsx[0][0]),))
                     if src[0] == "call" and src[1].endswith("::new") and src[2] and src[2][0][0] == "str":
                         seen_ns.append(src[2][0][1])
                         # raw read of the group contract itself (self.addr()) and, for members, keyed by the member address
